@@ -13,6 +13,7 @@ import (
 	"runtime"
 	"runtime/debug"
 	"runtime/pprof"
+	"sort"
 	"strings"
 	"sync"
 	"sync/atomic"
@@ -61,14 +62,7 @@ type ResLine struct {
 const watchdogLimit = 180 * time.Second
 
 func workerA(specPath string) {
-	debug.SetMaxStack(32 << 20) // a runaway recursion overflows quickly
-	gcp, lim := 400, 0
-	fmt.Sscan(os.Getenv("C12_GOGC"), &gcp)
-	fmt.Sscan(os.Getenv("C12_MEMLIM"), &lim)
-	debug.SetGCPercent(gcp)
-	if lim > 0 {
-		debug.SetMemoryLimit(int64(lim) << 20)
-	}
+	debug.SetMaxStack(2 << 20) // walks here are at most 5 levels deep; a runaway recursion overflows quickly and its traceback stays cheap
 	b, err := os.ReadFile(specPath)
 	if err != nil {
 		fmt.Fprintln(os.Stderr, "worker: spec:", err)
@@ -136,6 +130,7 @@ func workerA(specPath string) {
 			emit(cnt)
 			cnt = &ResLine{Task: ti, Outcomes: map[string]int{}, Cov: map[string]int{}}
 		}
+		emitted := map[string]int{} // per task and violation signature only the first few cases are written out
 		exec1 := func(i int, c *Case, sh *Shape, ex *Expect) {
 			journal(ti, i)
 			e := &env{c: c, sh: sh}
@@ -145,14 +140,20 @@ func workerA(specPath string) {
 			cnt.Evals++
 			if nontrivial(c, ex) {
 				cnt.NonTrivial++
-				if cnt.Sample == nil && ex.Sharing && ex.F != 0 && c.H != "" {
+				if cnt.Sample == nil && sh.N >= 4 && ex.Sharing && ex.F&^1 != 0 && ex.U == 0 && ex.LimBinds {
 					cnt.Sample = c
 				}
 			}
 			cnt.Outcomes[e.outcome()]++
 			cover(cnt.Cov, c, ex, e)
 			for _, v := range vs {
-				emit(&ResLine{Kind: "viol", Task: ti, Idx: i, V: v})
+				sig := violSig(v)
+				cnt.Cov["violating_observations:"+sig]++
+				if emitted[sig] < maxViolPerSig {
+					emitted[sig]++
+					v.Detail += "\n" + e.describe(ex)
+					emit(&ResLine{Kind: "viol", Task: ti, Idx: i, V: v})
+				}
 			}
 		}
 		if t.One != nil {
@@ -192,6 +193,17 @@ func workerA(specPath string) {
 		}
 		flush("done", -1)
 	}
+}
+
+const maxViolPerSig = 2
+
+func violSig(v *eng.Violation) string {
+	ks := make([]string, 0, len(v.Features))
+	for k, x := range v.Features {
+		ks = append(ks, k+"="+x)
+	}
+	sort.Strings(ks)
+	return v.Symptom + "|" + v.Op + "|" + strings.Join(ks, ",")
 }
 
 // cover records which targeted paths a case exercised.
@@ -248,7 +260,7 @@ type partA struct {
 	deadline int64
 
 	mu        sync.Mutex
-	crashes   map[int]int // gid -> fatal crashes on risky cases
+	crashes   map[string]int // crashKey -> fatal stack overflows in cases where a composed handler chain is invoked
 	restarts  map[int]int
 	skipped   int
 	evals     int
@@ -274,7 +286,21 @@ func newPartA(r *eng.Run) *partA {
 		bin, _ = filepath.Abs(os.Args[0])
 	}
 	return &partA{r: r, thorough: r.Thorough(), dom: domains(r.Thorough()), dir: dir, bin: bin,
-		crashes: map[int]int{}, restarts: map[int]int{}, outcomes: map[string]int{}, cov: map[string]int{}}
+		crashes: map[string]int{}, restarts: map[int]int{}, outcomes: map[string]int{}, cov: map[string]int{}}
+}
+
+// crashKey: the crash of a composed handler chain depends on the handler list
+// and on the call site (sequential or concurrent walker, Walk or FetchGraph),
+// not on SkipRoot / provider / number of fetchers.
+func crashKey(c *Case) string {
+	return c.API + "|" + c.H + "|" + c.walker()
+}
+
+func (p *partA) skipFor(g *Group) bool {
+	c := &Case{API: g.API, H: g.H, Conc: g.Conc}
+	p.mu.Lock()
+	defer p.mu.Unlock()
+	return p.crashes[crashKey(c)] >= crashesBeforeSkip
 }
 
 func (p *partA) caseOf(t *Task, idx int) (*Case, *Shape) {
@@ -320,6 +346,11 @@ func firstN(s string, n int) string {
 // runChunk runs tasks in one worker process, restarting it after every crash.
 func (p *partA) runChunk(tasks []Task) {
 	for len(tasks) > 0 {
+		for i := range tasks {
+			if tasks[i].Group != nil && !tasks[i].SkipRisky {
+				tasks[i].SkipRisky = p.skipFor(tasks[i].Group)
+			}
+		}
 		id := p.seq.Add(1)
 		base := filepath.Join(p.dir, fmt.Sprintf("c12a-%d", id))
 		spec := Spec{Thorough: p.thorough, Tasks: tasks, Journal: base + ".journal", Results: base + ".results", Deadline: p.deadline}
@@ -346,6 +377,9 @@ func (p *partA) runChunk(tasks []Task) {
 				}
 				switch l.Kind {
 				case "viol":
+					if l.Task < len(tasks) && tasks[l.Task].One != nil { // replay: show the observation
+						fmt.Printf("  %s (%s): %s\n", l.V.Symptom, l.V.Op, strings.ReplaceAll(l.V.Detail, "\n", "\n  "))
+					}
 					p.r.Report(l.V)
 				case "prog", "done", "expired":
 					p.mu.Lock()
@@ -414,11 +448,10 @@ func (p *partA) runChunk(tasks []Task) {
 		p.crashN++
 		p.evals++
 		if risky(c, ex) && sym == "fatal:stack overflow" {
-			p.crashes[t.GID]++
+			p.crashes[crashKey(c)]++
 		}
 		p.restarts[t.GID]++
 		nr := p.restarts[t.GID]
-		skip := p.crashes[t.GID] >= crashesBeforeSkip
 		p.mu.Unlock()
 		if t.One != nil {
 			tasks = tasks[ti+1:]
@@ -431,7 +464,7 @@ func (p *partA) runChunk(tasks []Task) {
 			tasks = tasks[ti+1:]
 			continue
 		}
-		rest := append([]Task{{GID: t.GID, Group: t.Group, Start: idx + 1, SkipRisky: skip || t.SkipRisky}}, tasks[ti+1:]...)
+		rest := append([]Task{{GID: t.GID, Group: t.Group, Start: idx + 1, SkipRisky: t.SkipRisky}}, tasks[ti+1:]...)
 		tasks = rest
 	}
 }
